@@ -53,6 +53,7 @@ type sWorld struct {
 	dlqSize   int
 	dlqTh     int
 	cancelled bool         // the run was cut short from outside (force stop / injected failure)
+	directAcked map[int]bool // unit harnesses: record confirmed downstream without destination nodes
 	filtered  map[int]bool // a processor filtered the record out
 	procErr   map[int]bool // a processor rejected the record
 	procs     []*sProc
@@ -83,6 +84,7 @@ type sProc struct {
 	// a slow Open: entered is closed when Open starts, Open returns once gate is closed
 	openEntered chan struct{}
 	openGate    chan struct{}
+	kindPlan    map[int]int // fixed result kind per record index (nil: chosen)
 }
 
 func (p *sProc) Open(ctx context.Context) error {
@@ -116,7 +118,9 @@ func (p *sProc) Process(ctx context.Context, recs []opencdc.Record) []sdk.Proces
 	for _, r := range recs {
 		i := sIdx(r.Position)
 		kind := spSingle
-		if len(p.kinds) > 1 {
+		if p.kindPlan != nil {
+			kind = p.kindPlan[i]
+		} else if len(p.kinds) > 1 {
 			// named per record: with parallel workers the call order is a schedule
 			// detail, the outcome chosen for a record must not depend on it
 			kind = p.kinds[verifConcrete(verifChoice(p.id+".kind.r"+strconv.Itoa(i), len(p.kinds)))]
@@ -172,6 +176,21 @@ type sSource struct {
 	paused    chan struct{} // closed when the source reached pauseAt
 	resume    chan struct{}
 	symOps    bool
+	ackYield  bool // a scheduling point at the start of Ack (a slow connector)
+}
+
+// sFeeder is a minimal upstream node: it publishes what the harness sends.
+type sFeeder struct{ out chan *Message }
+
+func (f *sFeeder) Pub() <-chan *Message { return f.out }
+
+// ackedDownstream records that every destination confirmed record i (unit
+// harnesses without destination nodes).
+func (w *sWorld) ackedDownstream(i int) {
+	if w.directAcked == nil {
+		w.directAcked = map[int]bool{}
+	}
+	w.directAcked[i] = true
 }
 
 func (s *sSource) ID() string           { return "src" }
@@ -232,6 +251,13 @@ func (s *sSource) Read(ctx context.Context) ([]opencdc.Record, error) {
 // Ack carries the C01/C04/C07 oracles of the default engine.
 func (s *sSource) Ack(ctx context.Context, positions []opencdc.Position) error {
 	w := s.w
+	if s.ackYield {
+		if verifSymbolic() {
+			verifYield()
+		} else {
+			time.Sleep(2 * time.Millisecond)
+		}
+	}
 	w.mu.Lock()
 	defer w.mu.Unlock()
 	verifAssert(s.tornDown == 0, "c06-source-ack-after-teardown")
@@ -257,6 +283,9 @@ func (w *sWorld) handled(i int) bool {
 	}
 	if w.procErr[i] {
 		return false
+	}
+	if len(w.dests) == 0 {
+		return w.directAcked[i]
 	}
 	for _, d := range w.dests {
 		if !d.acked[i] {
@@ -287,6 +316,7 @@ type sDest struct {
 	pending  chan opencdc.Record
 	allowMis bool
 	ackOnly  bool
+	nackPlan map[int]bool // fixed outcome per record index (nil: chosen)
 	batchAcks bool // one Ack response confirms every record written so far
 	slow     bool // answers only once the rest of the pipeline is idle
 	opened   int
@@ -406,7 +436,13 @@ func (d *sDest) Ack(ctx context.Context) ([]connector.DestinationAck, error) {
 			return []connector.DestinationAck{{Position: opencdc.Position("zz")}}, nil
 		}
 	}
-	if !d.ackOnly && verifBool(d.id+".nack") {
+	nack := false
+	if d.nackPlan != nil {
+		nack = d.nackPlan[i]
+	} else if !d.ackOnly {
+		nack = verifBool(d.id + ".nack")
+	}
+	if nack {
 		d.nacked[i] = true
 		return []connector.DestinationAck{{Position: r.Position, Error: cerrors.New(d.id + " rejected p" + strconv.Itoa(i))}}, nil
 	}
@@ -488,6 +524,8 @@ type sCfg struct {
 	symOps         bool  // each record's operation is chosen (create / snapshot)
 	ackOnly        bool  // destinations acknowledge everything
 	batchAcks      bool  // destinations confirm everything written so far in one response
+	nackPlans      []map[int]bool // per destination: fixed outcome per record (nil: chosen)
+	procPlan       map[int]int    // fixed processor result kind per record (nil: chosen)
 }
 
 type sPipeline struct {
@@ -526,7 +564,7 @@ func buildPipeline(c sCfg) *sPipeline {
 	var last PubNode = acker
 	if c.procKinds != nil {
 		newProcNode := func(k int) *ProcessorNode {
-			sp := &sProc{w: w, id: "proc", kinds: c.procKinds}
+			sp := &sProc{w: w, id: "proc", kinds: c.procKinds, kindPlan: c.procPlan}
 			w.procs = append(w.procs, sp)
 			return &ProcessorNode{Name: "proc-" + strconv.Itoa(k), Processor: sp, ProcessorTimer: sTimer{}}
 		}
@@ -550,7 +588,10 @@ func buildPipeline(c sCfg) *sPipeline {
 		d.allowMis = c.badDest
 		d.ackOnly = c.ackOnly
 		d.batchAcks = c.batchAcks
-		if c.M > 1 && !c.ackOnly {
+		if m < len(c.nackPlans) {
+			d.nackPlan = c.nackPlans[m]
+		}
+		if c.M > 1 && !c.ackOnly && len(c.nackPlans) == 0 {
 			d.slow = verifBool(d.id + ".slow")
 		}
 		w.dests = append(w.dests, d)
